@@ -1,18 +1,15 @@
 #!/usr/bin/env python3
 """Writes lean/Prism/Audit/<ID>.lean: `#print axioms` for every property theorem (every theorem
-named C<nn>_* in lean/Prism/Proofs/<ID>.lean), and prints the theorem lists for lib/props.py."""
-import os, re, json
+named C<nn>_* in any lean/Prism/Proofs/C*.lean; a theorem belongs to the property its name starts
+with, whichever file it is in), and lib/theorems.json: per property the theorem names and the
+modules that hold them (the check's build targets)."""
+import os, re, json, glob
 HERE = os.path.dirname(os.path.abspath(__file__))
 LEAN = os.path.join(HERE, "..", "lean")
-out = {}
-for n in range(1, 21):
-    pid = "C%02d" % n
-    p = os.path.join(LEAN, "Prism", "Proofs", pid + ".lean")
-    if not os.path.exists(p):
-        continue
+thms = {"C%02d" % n: [] for n in range(1, 21)}      # pid -> [(short, full, module)]
+for p in sorted(glob.glob(os.path.join(LEAN, "Prism", "Proofs", "C*.lean"))):
+    mod = "Prism.Proofs." + os.path.basename(p)[:-5]
     src = open(p, encoding="utf-8").read()
-    names = []
-    full = []
     ns = []
     for line in src.split("\n"):
         m = re.match(r"^namespace\s+(\S+)", line)
@@ -21,14 +18,20 @@ for n in range(1, 21):
         m = re.match(r"^end\s+(\S+)", line)
         if m and ns and ns[-1] == m.group(1):
             ns.pop()
-        m = re.match(r"^theorem\s+(%s_\w+)" % pid, line)
-        if m:
-            names.append(m.group(1))
-            full.append(".".join(ns + [m.group(1)]))
-    L = ["import Prism.Proofs." + pid, ""]
-    for nm in full:
-        L.append("#print axioms " + nm)
+        m = re.match(r"^theorem\s+(C\d\d)_(\w+)", line)
+        if m and m.group(1) in thms:
+            short = m.group(1) + "_" + m.group(2)
+            thms[m.group(1)].append((short, ".".join(ns + [short]), mod))
+out = {}
+for pid, lst in thms.items():
+    if not lst:
+        continue
+    main = "Prism.Proofs." + pid
+    mods = [main] + sorted({m for _, _, m in lst if m != main})
+    L = ["import " + m for m in mods] + [""]
+    for _, full, _ in lst:
+        L.append("#print axioms " + full)
     open(os.path.join(LEAN, "Prism", "Audit", pid + ".lean"), "w").write("\n".join(L) + "\n")
-    out[pid] = names
+    out[pid] = {"theorems": [s for s, _, _ in lst], "modules": mods}
 json.dump(out, open(os.path.join(HERE, "theorems.json"), "w"), indent=1)
-print({k: len(v) for k, v in out.items()})
+print({k: len(v["theorems"]) for k, v in out.items()})
